@@ -139,8 +139,17 @@ def run(ctx):
             f0 = s1.fixture_names[0]
             noise = "é = 'ü'; " if i % 2 == 0 else ""
             s2.emit(f"def test_body_use():\n    {noise}v = {f0}; w = [{f0}, {f0}.attr]\n    return {f0}(1)\n")
+        if s1.fixture_names and i % 4 == 3:
+            # the document ends inside a fixture, without a line terminator
+            s2.emit(f"@pytest.fixture\ndef last_fx({s1.fixture_names[0]}):\n    return {s1.fixture_names[0]}")
         test = s2.text()
+        if i % 4 == 3:
+            test = test.rstrip("\r\n")
         files = {"conftest.py": conf, "test_mod.py": test}
+        if s1.fixture_names:
+            # a module that records no fixture usage at all, only undeclared uses in a body
+            f0 = s1.fixture_names[0]
+            files["test_nousage.py"] = f"import os\n\n\ndef test_plain():\n    v = {f0}\n    return {f0}.x\n"
         try:
             for t in files.values():
                 compile(t, "<src>", "exec", dont_inherit=True)
